@@ -2,5 +2,6 @@ SPECIFICATION Spec
 CONSTANTS
   Req = {1, 2, 3, 4}
   SharedScratch = FALSE
+  AppendInPlace = FALSE
 INVARIANT Isolated
 PROPERTY SharedReadOnly
